@@ -156,6 +156,10 @@ func (in *Interp) load(fr *frame, addr Value) Value {
 		if p == nil {
 			fr.fault(in.tb.False, "nil-deref")
 		}
+		if in.race != nil {
+			in.curFn = fr.fn
+			in.raceAccessCell(p, false)
+		}
 		return copyVal(*p)
 	case SymRef:
 		return in.symLoad(p)
@@ -237,6 +241,10 @@ func (in *Interp) storeCell(fr *frame, p *Value, v Value) {
 	}
 	if in.globalCells != nil && in.globalCells[p] {
 		in.sharedWrites = append(in.sharedWrites, fr.fname())
+	}
+	if in.race != nil {
+		in.curFn = fr.fn
+		in.raceAccessCell(p, true)
 	}
 	*p = v
 }
@@ -446,6 +454,10 @@ func (in *Interp) visitInstr(fr *frame, instr ssa.Instruction) bool {
 			idx := in.index64(fr.get(instr.Index), instr.Index.Type())
 			fr.env[instr] = in.strIndex(fr, x, idx)
 		case *Map:
+			if in.race != nil {
+				in.curFn = fr.fn
+				in.raceAccessMap(x, false)
+			}
 			k := in.mapKeyVal(fr.get(instr.Index))
 			v, ok := x.get(in, k)
 			if !ok {
@@ -468,6 +480,10 @@ func (in *Interp) visitInstr(fr *frame, instr ssa.Instruction) bool {
 		}
 		if in.globalMaps != nil && in.globalMaps[m] {
 			in.sharedWrites = append(in.sharedWrites, "map update in "+fr.fname())
+		}
+		if in.race != nil {
+			in.curFn = fr.fn
+			in.raceAccessMap(m, true)
 		}
 		m.set(in, in.mapKeyVal(fr.get(instr.Key)), copyVal(fr.get(instr.Value)))
 
@@ -734,6 +750,9 @@ func (in *Interp) rangeIter(x Value) *Iter {
 		}
 		return &Iter{kind: 0, str: Str{S: x.Concrete()}}
 	case *Map:
+		if in.race != nil {
+			in.raceAccessMap(x, false)
+		}
 		return &Iter{kind: 1, m: x}
 	}
 	panic(engineAbort{fmt.Sprintf("range over %T", x)})
